@@ -19,7 +19,7 @@ from fractions import Fraction
 from .algebra import Ctx, Poly, Rat, num
 from .core import AnalysisError
 from .spec.si import DIMS, SUBKINDS, SIGN, result_kind
-from .srcmodel import Model, strip_docstring
+from .srcmodel import Model, strip_docstring, walk_no_nested
 from .units import UnitTables, const_fold
 
 MAX_STATES = 600
@@ -583,12 +583,20 @@ class SX:
             raise CannotDecide(f'unexpected arguments {sorted(args)} for {fn.name}')
         st.env = env
         frame = {'module': module, 'cls': cls, 'fn': fn, 'depth': depth}
+        is_gen = any(isinstance(x, (ast.Yield, ast.YieldFrom)) for x in walk_no_nested(fn))
+        if is_gen:
+            st.env['<yields>'] = Tv([])
         outs = self.block(strip_docstring(fn.body), [st], frame)
         res = []
         for o in outs:
             s = o.state.copy()
+            ys = s.env.get('<yields>')
             s.env = caller_env
-            res.append(Outcome(s, o.kind, o.value, o.loc))
+            if is_gen and o.kind in ('fall', 'return'):
+                # a generator function: its value is the (concrete) sequence of what it yields on this path
+                res.append(Outcome(s, 'return', ys if isinstance(ys, Tv) else Tv([]), o.loc))
+            else:
+                res.append(Outcome(s, o.kind, o.value, o.loc))
         return res
 
     @staticmethod
@@ -638,6 +646,16 @@ class SX:
     def stmt(self, s, st: State, frame) -> list:
         if isinstance(s, ast.Pass):
             return [Outcome(st, 'fall')]
+        if isinstance(s, ast.Expr) and isinstance(s.value, ast.Yield) and isinstance(st.env.get('<yields>'), Tv):
+            res = []
+            for r in (self.eval_x(s.value.value, st, frame) if s.value.value is not None else [(st, NoneV())]):
+                if isinstance(r, Outcome):
+                    res.append(r)
+                    continue
+                s2 = r[0].copy()
+                s2.env['<yields>'] = Tv(list(s2.env['<yields>'].items) + [r[1]])
+                res.append(Outcome(s2, 'fall'))
+            return res
         if isinstance(s, ast.Expr):
             if isinstance(s.value, ast.Constant):
                 return [Outcome(st, 'fall')]
@@ -698,7 +716,9 @@ class SX:
             return self.while_concrete(s, st, frame)
         if isinstance(s, ast.Match):
             return self.match_stmt(s, st, frame)
-        if isinstance(s, ast.For) and (self.eval_comprehensions or isinstance(s.iter, (ast.Tuple, ast.List, ast.Name))):
+        if isinstance(s, ast.For) and (self.eval_comprehensions or isinstance(s.iter, (ast.Tuple, ast.List, ast.Name)) or (
+                isinstance(s.iter, ast.Call) and isinstance(s.iter.func, ast.Name) and s.iter.func.id != 'range'
+                and (s.iter.func.id in ('zip', 'enumerate', 'reversed', 'list', 'tuple') or s.iter.func.id in self.model.functions))):
             r = self.for_unrolled(s, st, frame)       # a loop over a concrete tuple/list (literal, local or module constant) is unrolled
             if r is not None:
                 return r
@@ -1168,6 +1188,26 @@ class SX:
             return [(st, Unk('slice:' + ast.unparse(n)))]
         if isinstance(n, (ast.ListComp, ast.GeneratorExp)) and self.eval_comprehensions:
             return self.comprehension(n, st, frame)
+        if isinstance(n, ast.DictComp) and len(n.generators) == 1 and not n.generators[0].ifs and isinstance(n.generators[0].target, ast.Name):
+            try:
+                its = self.eval_x(n.generators[0].iter, st, frame)
+            except CannotDecide:
+                its = []
+            if len(its) == 1 and not isinstance(its[0], Outcome) and isinstance(its[0][1], Tv) \
+                    and all(isinstance(i, Sv) for i in its[0][1].items):
+                s0 = its[0][0]
+                d = {}
+                ok = True
+                for item in its[0][1].items:
+                    s2 = s0.copy()
+                    s2.env[n.generators[0].target.id] = item
+                    ks, vs = self.eval_x(n.key, s2, frame), self.eval_x(n.value, s2, frame)
+                    if len(ks) != 1 or len(vs) != 1 or isinstance(ks[0], Outcome) or isinstance(vs[0], Outcome) or not isinstance(ks[0][1], Sv):
+                        ok = False
+                        break
+                    d[ks[0][1].s] = vs[0][1]
+                if ok:
+                    return [(s0, Dv(d))]
         if isinstance(n, (ast.ListComp, ast.GeneratorExp, ast.Dict, ast.Lambda, ast.DictComp, ast.SetComp, ast.Set)):
             return [(st, Unk(ast.unparse(n)[:80]))]
         raise CannotDecide(f'expression kind {type(n).__name__}: {ast.unparse(n)[:60]}')
@@ -2141,6 +2181,9 @@ class SX:
             return [(s2, NoneV())]
         if isinstance(recv, Tv) and attr == 'append':
             return [(st.with_effect(('list-append', self.show(recv), args, n.lineno)), NoneV())]
+        if isinstance(recv, Sv) and all(isinstance(a, Sv) for a in args) and not kwargs and attr in (
+                'replace', 'strip', 'lower', 'upper', 'title', 'lstrip', 'rstrip', 'capitalize'):
+            return [(st, Sv(getattr(recv.s, attr)(*[a.s for a in args])))]
         if isinstance(recv, Unk) and recv.text.endswith('__UNITS') and attr == 'keys':
             return [(st, Unk(recv.text + '.keys()'))]
         return [(st.with_effect(('opaque-call', self.show(recv) + '.' + attr, args, kwargs, n.lineno)),
@@ -2240,9 +2283,9 @@ class SX:
                     else:
                         groups.append((x, [Sv(x)]))
                 return [(st, Tv([Tv([Sv(k), Tv(g)], 'tuple') for k, g in groups]))]
-        if self.eval_comprehensions and name == 'zip' and args and all(isinstance(a, Tv) for a in args):
+        if name == 'zip' and args and all(isinstance(a, Tv) for a in args):
             return [(st, Tv([Tv(list(t), 'tuple') for t in zip(*[a.items for a in args])]))]
-        if self.eval_comprehensions and name == 'enumerate' and len(args) == 1 and isinstance(args[0], Tv):
+        if name == 'enumerate' and len(args) == 1 and isinstance(args[0], Tv):
             return [(st, Tv([Tv([N(Rat.const(i), 'int'), x], 'tuple') for i, x in enumerate(args[0].items)]))]
         if self.eval_comprehensions and name == 'range' and args and all(isinstance(a, N) and a.term.is_const() for a in args):
             return [(st, Tv([N(Rat.const(i), 'int') for i in range(*[int(a.term.const_value()) for a in args])]))]
